@@ -313,3 +313,32 @@ Proof.
     + unfold fetchout_decode. cbn [map app]. rewrite head_acks. rewrite (acks_body a PFlush tail Ha (or_intror eq_refl)).
       rewrite Hshape. cbn [Z.eqb]. unfold set_acks, fetchout_zero. reflexivity.
 Qed.
+
+(* ---------- where Decode stops: right behind the packfile header ---------- *)
+Lemma tagged_last : forall ps p t rest d,
+  snd (nth (List.length ps) (tagged (ps ++ [p]) t ++ rest) d) = t.
+Proof.
+  induction ps as [|q ps IH]; intros p t rest d.
+  - cbn [app tagged nth List.length snd]. unfold enc_len. cbn. reflexivity.
+  - cbn [app tagged nth List.length]. apply IH.
+Qed.
+
+Theorem fetchout_position o ps s t r : fetchout_ok o = true -> fo_packfile o = true -> fetchout_encode o = Some ps ->
+  enc_pkts ps = Some s -> List.concat r = s ++ t ->
+  exists ls', fetchout_decode (map fst (rl_all r)) = inl (o, ls') /\ rl_rest (rlen r) (rl_all r) ls' = List.length t.
+Proof.
+  intros Hok Hpf He Hs Hr. pose proof He as He'.
+  destruct (fetchout_roundtrip o ps [] Hok He) as [Hne _].
+  destruct (rl_all_tail ps s t r Hs Hne Hr) as (rest & Hall & _).
+  exists (map fst rest). rewrite Hall, map_app, map_fst_tagged.
+  destruct (fetchout_roundtrip o ps (map fst rest) Hok He) as [_ Hd]. split; [exact Hd|].
+  unfold rl_rest. rewrite app_length, map_length, tagged_length.
+  (* the encoding of a response with a packfile ends with the packfile header: it is not empty *)
+  unfold fetchout_encode in He'. rewrite Hpf in He'.
+  apply (f_equal (fun x => match x with Some y => y | None => [] end)) in He'. cbv beta iota in He'.
+  set (pre := section "acknowledgments" acks_encode (fo_acks o) ++ section "shallow-info" shinfo_encode (fo_shallow o) ++
+              section "wanted-refs" wanted_encode (fo_wanted o) ++ section "packfile-uris" uris_encode (fo_uris o)) in *.
+  assert (ps = pre ++ [PData (B "packfile" ++ [NL])]) as -> by (subst ps; unfold pre; now rewrite <- !app_assoc).
+  rewrite app_length. cbn [List.length]. replace (List.length pre + 1 + List.length rest - List.length rest)%nat with (S (List.length pre)) by lia.
+  apply tagged_last.
+Qed.
